@@ -2134,15 +2134,24 @@ impl<E: Effect> Executor<E> {
     }
 
     fn handle_self(&mut self, pid: ProcessId) -> Result<Option<Action<E>>, Error> {
+        // The handle names the function the process was started with - the same index its
+        // spawner received - not whatever function a tail call has since put in the first frame,
+        // so that every handle to one process is the same value.
+        let started_with = self.process_function_indices.get(&pid).copied();
         let process = self
             .get_process_mut(pid)
             .ok_or(Error::InvalidArgument("Process not found".to_string()))?;
 
-        let function_index = process
-            .frames
-            .first()
-            .ok_or(Error::FrameUnderflow)?
-            .function_index;
+        let function_index = match started_with {
+            Some(index) => index,
+            None => {
+                process
+                    .frames
+                    .first()
+                    .ok_or(Error::FrameUnderflow)?
+                    .function_index
+            }
+        };
         process.stack.push(Value::Process(pid, function_index));
 
         if let Some(frame) = process.frames.last_mut() {
